@@ -55,7 +55,7 @@ def hostile_lines(rnd):
             n = rnd.choice([65535, 65536, 65537, 70000, 200000])
             line = b"CWD " + b"A" * n + rnd.choice([b"\r\n", b""])
         elif k < 0.8:
-            line = rnd.choice([b"USER anonymous\r\n", b"PWD\r\n", b"EPSV\r\n", b"MLSD\r\n", b"REST 5\r\n"])
+            line = rnd.choice([b"USER anonymous\r\n", b"PWD\r\n", b"EPSV\r\n", b"MLSD\r\n", b"REST 5\r\n", b"USER u1\r\n", b"USER u1\r\nPASS \xff\xfe\r\n", b"NOOP\r\n" * 20 + b"QUIT\r\n", b"QUIT\r\n"])
         else:
             line = rnd.choice([b"USER", b"PAS", b"RETR f", b"\xe2\x82", b"CWD /s0"])  # no terminator
         out.append(line.decode("latin-1"))
@@ -72,6 +72,8 @@ def build_good(case, only=None):
     B = 16
     rng = random.Random(case["seed"] * 7919 + 109)
     net = scenario.random_net(rng, allow_small_pipe=False)
+    if case.get("noread"):
+        net["capacity"], net["high_water"] = 16, 16
     if sum(len(x) for x in case.get("hostile") or ()) > 20000 and (net.get("seg_mode") == "dribble" or net.get("seg_max", 1460) < 256):
         # a 200000-byte line in 1-byte segments is 200000 simulated network events: keep the
         # segmentation but not below a few hundred bytes per segment
@@ -88,7 +90,7 @@ def build_good(case, only=None):
         if only is not None and i != only:
             continue
         sessions.append({"label": f"s{i}", "script": script, "prefix": prefix, "start": 0.0 if only is not None else 0.001 * i, "data_timeout": 2000.0, "reply_timeout": 5000.0})
-    return {"seed": case["seed"], "server": {"block_size": B, "idle_timeout": None, "socket_timeout": None, "wait_future_timeout": None, "users": corpus.USERS}, "net": net, "fs": {"delay": [0.0001, 0.002], "tree": tree}, "sessions": sessions, "faults": [], "settle": 200.0, "session_deadline": 50000.0, "final_close": True}
+    return {"seed": case["seed"], "server": {"block_size": B, "idle_timeout": None, "socket_timeout": None, "wait_future_timeout": None, "users": [dict(u, maximum_connections=1) if u.get("login") == "u1" else u for u in corpus.USERS]}, "net": net, "fs": {"delay": [0.0001, 0.002], "tree": tree}, "sessions": sessions, "faults": [], "settle": 200.0, "session_deadline": 50000.0, "final_close": True}
 
 
 def run_server_case(case):
@@ -112,6 +114,10 @@ def run_server_case(case):
                     await p.connect()
                     if case["login_first"]:
                         await p.cmd("USER anonymous")
+                    if case.get("noread"):
+                        # the hostile peer reads (almost) nothing from now on: the server's replies
+                        # back up into its blocked writer
+                        p.reader._limit = 8
                     for ln in case["hostile"]:
                         data = ln.encode("latin-1")
                         p.writer.write(data)
@@ -168,6 +174,12 @@ def run_server_case(case):
                     c2, _ = await q.cmd("USER anonymous")
                     c3, _ = await q.cmd("PWD")
                     info["fresh"] = (code, c2, c3)
+                    # the account with a single slot (which the hostile session may have named and
+                    # then botched) can still log in
+                    c4, _ = await q.cmd("USER u1")
+                    c5, _ = await q.cmd("PASS pw1")
+                    info["fresh_u1"] = (c4, c5)
+                    await q.cmd("USER anonymous")
                     # whatever the hostile session left in the shared tree, an ordinary session
                     # can still list it (root and the directories the hostile lines name)
                     lst = []
@@ -211,6 +223,8 @@ def run_server_case(case):
     if info.get("fresh") != ("220", "230", "257"):
         viol.append({"clause": "server-stopped-serving", "subject": "fresh-session", "detail": f"a fresh session after the hostile input got {info.get('fresh')}"})
     else:
+        if info.get("fresh_u1") not in (None, ("331", "230")) and info.get("hostile_ended"):
+            viol.append({"clause": "server-stopped-serving", "subject": "fresh-session-login", "detail": f"after the hostile session {_short(case)} had ended, USER u1 / PASS pw1 (account limited to one session) answered {info.get('fresh_u1')}"})
         for line, mark, final in info.get("fresh_listings", [("MLSD /", None, None)]):
             ok = (mark or "")[:1] == "1" and (final or "")[:1] == "2"
             if not ok and not (line.endswith("/hostile") and (final or "").startswith("550")):
@@ -605,6 +619,12 @@ def main(argv=None):
                         for login_first in (False, True):
                             g += 1
                             yield {"mode": "server", "seed": a.seed * 1000 + g, "hostile": ["CWD " + "A" * nbytes + term] + (["PWD\r\n"] if g % 3 == 0 else []), "end": end, "login_first": login_first, "scripts": ["idle" if g % 2 else "stor_retr"]}
+            # a peer that floods commands, asks to QUIT and reads nothing, then goes away
+            for nflood in (5, 40):
+                for end in ("rst", "fin", "hold"):
+                    for login_first in (False, True):
+                        g += 1
+                        yield {"mode": "server", "seed": a.seed * 1000 + g, "hostile": ["PWD\r\n" * nflood + "QUIT\r\n"], "end": end, "login_first": login_first, "noread": True, "scripts": ["idle"]}
             for i in range(n):
                 yield gen_client_case(a.seed * 1_000_000 + i)
                 yield gen_client_case(a.seed * 1_000_000 + n + i)
